@@ -405,7 +405,12 @@ func (r *Run) absorb(c *Case) {
 			r.maxes[k] = v
 		}
 	}
-	for _, h := range c.hashes {
+	if len(c.hashes) > 0 {
+		// one case counts once, whatever the number of Distinct calls it made
+		h := c.hashes[0]
+		if len(c.hashes) > 1 {
+			h = Mix(c.hashes...)
+		}
 		if len(r.distinct) < distinctCap {
 			r.distinct[h] = struct{}{}
 		} else {
